@@ -312,14 +312,41 @@ def composite_cases(rep: Report, rng: random.Random, n: int) -> None:
                 rep.violation(f"TransformerDecoder parameter {name}: tag {getattr(p, 'mup_type', None)!r}, depth {getattr(p, 'mup_scaling_depth', 'missing')!r}; expected {want_tag!r}, {want_depth!r}",
                               {"module": "TransformerDecoder", "param": name, "layers": layers}, key="decoder_tags")
                 break
-    # depth containers (spec: Wrap)
+    # depth containers (spec: Wrap): depth = number of CHILDREN, whichever way the container is constructed
+    from collections import OrderedDict
+
+    def kid():
+        return rng.choice([lambda: uu.Linear(3, 3, bias=True), lambda: uu.Linear(3, 3), lambda: uu.MLP(3, 2), lambda: uu.LayerNorm(3)])()
+
+    forms = [("DepthModuleList(list)", M.DepthModuleList, lambda ks: M.DepthModuleList(ks)),
+             ("DepthModuleList(generator)", M.DepthModuleList, lambda ks: M.DepthModuleList(k_ for k_ in ks)),
+             ("DepthSequential(*modules)", M.DepthSequential, lambda ks: M.DepthSequential(*ks)),
+             ("DepthSequential(OrderedDict)", M.DepthSequential, lambda ks: M.DepthSequential(OrderedDict((f"layer{i}", k_) for i, k_ in enumerate(ks))))]
+    for label, cls, make in forms:
+        for k in (1, 2, 3, rng.randint(4, 6)):
+            kids = [kid() for _ in range(k)]
+            rep.case(("container", label, k))
+            try:
+                c = make(kids)
+            except Exception as ex:
+                rep.violation(f"{label} of {k} unit-scaled layers raised {type(ex).__name__}: {str(ex)[:120]}", {"module": cls.__name__, "form": label, "k": k}, key=f"container_raised:{label}")
+                continue
+            if len(c) != k or any(p.mup_scaling_depth != k for p in c.parameters()):
+                rep.violation(f"{label} of {k} layers does not record depth {k} on every parameter (recorded: {sorted({p.mup_scaling_depth for p in c.parameters()}, key=str)})",
+                              {"module": cls.__name__, "form": label, "k": k}, key=f"container_depth:{label}")
+            if cls is M.DepthSequential:
+                x = torch.randn(2, 3)
+                y, h = c(x), x
+                for k_ in kids:
+                    h = k_(h)
+                if not torch.equal(y, h):
+                    rep.violation(f"{label}: forward differs from applying its layers in order", {"module": cls.__name__, "form": label, "k": k}, key=f"container_forward:{label}")
+    for layers in (1, 2, 4):
+        st = M.TransformerStack(layers, hidden_size=4, heads=2, is_causal=True, dropout_p=0.0)
+        rep.case(("container", "TransformerStack", layers))
+        if len(st) != layers or any(p.mup_scaling_depth != layers for p in st.parameters()):
+            rep.violation(f"TransformerStack({layers}) does not record depth {layers} on every parameter", {"module": "TransformerStack", "k": layers}, key="container_depth:TransformerStack")
     for cls in (M.DepthModuleList, M.DepthSequential):
-        k = rng.randint(1, 4)
-        kids = [uu.Linear(3, 3, bias=True) for _ in range(k)]
-        c = cls(kids) if cls is M.DepthModuleList else cls(*kids)
-        rep.case(("container", cls.__name__, k))
-        if any(p.mup_scaling_depth != k for p in c.parameters()):
-            rep.violation(f"{cls.__name__} of {k} layers does not record depth {k} on every parameter", {"module": cls.__name__, "k": k}, key="container_depth")
         try:
             bad = [uu.Linear(3, 3), nn.Linear(3, 3)]
             cls(bad) if cls is M.DepthModuleList else cls(*bad)
